@@ -1515,10 +1515,11 @@ func genHijack(r *common.Rng, c *tcase) {
 			q = append(q, kv{"stream-errors", se})
 		}
 		junk()
-		// round 8b: the collection reports a failed peer and/or a key error. Without stream-errors=true the handler
-		// reports them in X-Stream-Error AFTER the collection ran (proposed finding, notes/C12.md "Round 8b"): those
-		// inputs are only generated with VERIF_C12_GCERR=1 until the finding is registered.
-		if (se == "true" || os.Getenv("VERIF_C12_GCERR") == "1") && r.Chance(1, 2) {
+		// round 8b/8c: the collection reports a failed peer and/or a key error, for EVERY stream-errors value. Without
+		// stream-errors=true the handler reports them in X-Stream-Error AFTER the collection ran: known finding K12d
+		// (the model follows: Model/C12.lean gcSerr; those cases are `propfail hijack_error_no_op arm=repoGCHandler-200`).
+		_ = se
+		if r.Chance(1, 2) {
 			c.gcErr = 1 + r.Intn(3)
 			if len(c.gcKeys) == 0 {
 				c.gcErr = 1
